@@ -561,7 +561,9 @@ impl endpoint::Session for ListenerSession {
                 } else {
                     // Session-level flow with no link handle — nothing to buffer.
                 }
-                Ok(None)
+                // The flow may have reopened the remote-incoming-window: transfers that were
+                // waiting for it must go out now, not at the next flow or transfer.
+                self.session.release_buffered_transfers(None)
             }
             Err(e) => Err(e),
         }
